@@ -189,6 +189,12 @@ def run(prog, rep):
     rule_strsib(prog, rep, ev)
     from .C02 import rule_partition
     rule_partition(prog, rep)
+    # the product exploration takes about a second, so it runs in both tiers; the thorough tier
+    # widens the alphabet (every code point up to U+024F plus the representatives)
+    from . import lexer_dfa
     if rep.tier == "thorough":
-        from . import lexer_dfa
+        from ..patset import CHAR_DOMAIN
+        sigma = sorted(set(range(0x250)) | set(int(c) for c in CHAR_DOMAIN) | {0x2028, 0x2029, 0xD7FF, 0xE000, 0xFFFF, 0x10000, 0x10FFFF})
+        lexer_dfa.run(prog, rep, ev, sigma)
+    else:
         lexer_dfa.run(prog, rep, ev)
